@@ -27,12 +27,14 @@ import (
 	"math"
 	"net"
 	"sort"
+	"strings"
 	"sync/atomic"
 	"testing"
 	"time"
 
 	"github.com/gotid/god/lib/breaker"
 	"github.com/gotid/god/lib/logx"
+	"github.com/gotid/god/rpc/internal/auth"
 	"github.com/gotid/god/rpc/internal/mock"
 	"github.com/gotid/god/rpc/resolver"
 	"google.golang.org/grpc"
@@ -46,7 +48,7 @@ import (
 func init() { logx.Disable() }
 
 type c14CliOpt struct {
-	K string `json:"k"`           // dial creds timeout nonblock unary stream
+	K string `json:"k"`           // dial creds timeout nonblock unary stream auth
 	V int    `json:"v,omitempty"` // timeout: seconds
 }
 
@@ -146,6 +148,8 @@ func c14Client(c c14CliCase) (v kit.Verdict) {
 			opts = append(opts, WithTimeout(time.Duration(o.V)*time.Second))
 		case "nonblock":
 			opts = append(opts, WithNonBlock())
+		case "auth": // what rpc.NewClient prepends for a ClientConfig with App and Token
+			opts = append(opts, WithDialOption(grpc.WithPerRPCCredentials(&auth.Credential{App: "c14", Token: "t"})))
 		case "unary":
 			opts = append(opts, WithUnaryClientInterceptor(func(ctx context.Context, method string, req, reply interface{},
 				cc *grpc.ClientConn, invoker grpc.UnaryInvoker, co ...grpc.CallOption) error {
@@ -331,7 +335,7 @@ func c14CliGen(rt *rapid.T) c14CliCase {
 	c := c14CliCase{B: rapid.IntRange(2, 4).Draw(rt, "b"), Twin: rapid.Bool().Draw(rt, "twin")}
 	n := rapid.IntRange(0, 5).Draw(rt, "nopts")
 	for i := 0; i < n; i++ {
-		o := c14CliOpt{K: rapid.SampledFrom([]string{"dial", "creds", "creds", "timeout", "nonblock", "unary", "stream"}).Draw(rt, "k")}
+		o := c14CliOpt{K: rapid.SampledFrom([]string{"dial", "creds", "creds", "timeout", "nonblock", "unary", "stream", "auth"}).Draw(rt, "k")}
 		if o.K == "timeout" {
 			o.V = rapid.IntRange(5, 20).Draw(rt, "v")
 		}
@@ -351,7 +355,7 @@ func TestVerif_C14_client(t *testing.T) {
 // do not.)
 //
 // Five backends, one of them answers every call with Internal / Unavailable / DataLoss /
-// Unimplemented; sequential calls through a NewClient client.
+// Unimplemented / DeadlineExceeded; sequential calls through a NewClient client.
 //   warm-up  calls until the failing backend's completions span >= 8 s: its calls fail
 //            from the first one on, so with the 10 s decay its score is
 //            <= 1000*exp(-0.8) < 500 whatever the spacing (the statement's "unhealthy
@@ -370,7 +374,7 @@ type c14SickCase struct {
 	Opts []c14CliOpt `json:"opts"`
 }
 
-var c14SickCodes = []codes.Code{codes.Internal, codes.Unavailable, codes.DataLoss, codes.Unimplemented}
+var c14SickCodes = []codes.Code{codes.Internal, codes.Unavailable, codes.DataLoss, codes.Unimplemented, codes.DeadlineExceeded}
 
 func c14Sick(c c14SickCase) (v kit.Verdict) {
 	const backends, measured = 5, 6000
@@ -416,6 +420,8 @@ func c14Sick(c c14SickCase) (v kit.Verdict) {
 			opts = append(opts, WithTimeout(time.Duration(o.V)*time.Second))
 		case "nonblock":
 			opts = append(opts, WithNonBlock())
+		case "auth":
+			opts = append(opts, WithDialOption(grpc.WithPerRPCCredentials(&auth.Credential{App: "c14", Token: "t"})))
 		}
 	}
 	cli, err := NewClient(resolver.BuildDirectTarget(endpoints), opts...)
@@ -498,10 +504,10 @@ func c14Sick(c c14SickCase) (v kit.Verdict) {
 }
 
 func c14SickGen(rt *rapid.T) c14SickCase {
-	c := c14SickCase{U: rapid.IntRange(0, 4).Draw(rt, "u"), Code: rapid.IntRange(0, 3).Draw(rt, "code")}
+	c := c14SickCase{U: rapid.IntRange(0, 4).Draw(rt, "u"), Code: rapid.IntRange(0, len(c14SickCodes)-1).Draw(rt, "code")}
 	n := rapid.IntRange(0, 3).Draw(rt, "nopts")
 	for i := 0; i < n; i++ {
-		o := c14CliOpt{K: rapid.SampledFrom([]string{"dial", "creds", "timeout", "nonblock"}).Draw(rt, "k")}
+		o := c14CliOpt{K: rapid.SampledFrom([]string{"dial", "creds", "timeout", "nonblock", "auth"}).Draw(rt, "k")}
 		if o.K == "timeout" {
 			o.V = rapid.IntRange(5, 20).Draw(rt, "v")
 		}
@@ -512,4 +518,128 @@ func c14SickGen(rt *rapid.T) c14SickCase {
 
 func TestVerif_C14_clientsick(t *testing.T) {
 	kit.Run(t, "C14", "client-unhealthy", kit.Opts{Quick: 1, Thorough: 6, NoShard: true}, c14SickGen, c14Sick)
+}
+
+// ---------------------------------------------------------------------------
+// client-dial-error (UNSPECIFIED: panics and hangs only). The statement says nothing
+// about a client that cannot be built; NewClient's error path (dial time-out after 3 s
+// against backends that do not answer, a dial option gRPC rejects at once) and a
+// non-blocking client whose backends are all down are run so that a panic or a hang in
+// them is seen. No result is compared: the outcome only feeds the class histogram.
+
+type c14DialCase struct {
+	Kind   string      `json:"kind"`   // badconfig dead dead-nonblock
+	Target int         `json:"target"` // dead*: 0 direct:///a,b  1 direct:///a,b/  2 plain host:port  3 direct:///
+	Opts   []c14CliOpt `json:"opts"`
+}
+
+func c14DialErr(c c14DialCase) (v kit.Verdict) {
+	classes := map[string]bool{"dial-" + c.Kind: true}
+	done := func() kit.Verdict {
+		for k := range classes {
+			v.Classes = append(v.Classes, k)
+		}
+		sort.Strings(v.Classes)
+		return v
+	}
+	// two ports nobody listens on (bound, then released)
+	var dead []string
+	for i := 0; i < 2; i++ {
+		lis, err := net.Listen("tcp", "127.0.0.1:0")
+		if err != nil {
+			v.Excluded = true
+			return done()
+		}
+		dead = append(dead, lis.Addr().String())
+		_ = lis.Close()
+	}
+	var opts []ClientOption
+	for _, o := range c.Opts {
+		switch o.K {
+		case "dial":
+			opts = append(opts, WithDialOption(grpc.WithUserAgent("c14")))
+		case "creds":
+			opts = append(opts, WithTransportCredentials(insecure.NewCredentials()))
+		case "timeout":
+			opts = append(opts, WithTimeout(time.Duration(o.V)*time.Second))
+		}
+	}
+	target := resolver.BuildDirectTarget(dead)
+	switch c.Kind {
+	case "badconfig":
+		lis, err := net.Listen("tcp", "127.0.0.1:0")
+		if err != nil {
+			v.Excluded = true
+			return done()
+		}
+		srv := grpc.NewServer()
+		mock.RegisterDepositServiceServer(srv, &mock.DepositServer{})
+		go func() { _ = srv.Serve(lis) }()
+		defer srv.Stop()
+		target = resolver.BuildDirectTarget([]string{lis.Addr().String()})
+		opts = append(opts, WithDialOption(grpc.WithDefaultServiceConfig(`{"loadBalancingPolicy":`)))
+	case "dead-nonblock":
+		opts = append(opts, WithNonBlock())
+		fallthrough
+	default:
+		classes[fmt.Sprintf("dial-target-form-%d", c.Target%4)] = true
+		switch c.Target % 4 {
+		case 1:
+			target += "/"
+		case 2:
+			target = dead[0]
+		case 3:
+			target = resolver.BuildDirectTarget(nil)
+		}
+	}
+	var cli Client
+	var err error
+	func() {
+		defer func() {
+			if r := recover(); r != nil {
+				v.Fail = fmt.Sprintf("NewClient(%q) with options %+v panicked: %v", target, c.Opts, r)
+			}
+		}()
+		cli, err = NewClient(target, opts...)
+	}()
+	if v.Fail != "" {
+		return done()
+	}
+	switch {
+	case err != nil && strings.Contains(err.Error(), context.DeadlineExceeded.Error()):
+		classes["dial-error-deadline"] = true
+	case err != nil:
+		classes["dial-error-other"] = true
+	default:
+		classes["dial-returned-a-client"] = true
+	}
+	if err == nil && cli != nil && cli.Conn() != nil {
+		ctx, cancel := context.WithTimeout(context.Background(), 2*time.Second)
+		_, cerr := mock.NewDepositServiceClient(cli.Conn()).Deposit(ctx, &mock.DepositRequest{Amount: 0})
+		cancel()
+		classes["call-on-dead-backends-"+status.Code(cerr).String()] = true
+		_ = cli.Conn().Close()
+	}
+	v.NonTrivial = err != nil
+	return done()
+}
+
+func c14DialGen(rt *rapid.T) c14DialCase {
+	c := c14DialCase{
+		Kind:   rapid.SampledFrom([]string{"badconfig", "dead", "dead", "dead-nonblock"}).Draw(rt, "kind"),
+		Target: rapid.IntRange(0, 3).Draw(rt, "target"),
+	}
+	n := rapid.IntRange(0, 2).Draw(rt, "nopts")
+	for i := 0; i < n; i++ {
+		o := c14CliOpt{K: rapid.SampledFrom([]string{"dial", "creds", "timeout"}).Draw(rt, "k")}
+		if o.K == "timeout" {
+			o.V = rapid.IntRange(1, 5).Draw(rt, "v")
+		}
+		c.Opts = append(c.Opts, o)
+	}
+	return c
+}
+
+func TestVerif_C14_clientdialerror(t *testing.T) {
+	kit.Run(t, "C14", "client-dial-error", kit.Opts{Quick: 4, Thorough: 16, NoShard: true}, c14DialGen, c14DialErr)
 }
